@@ -26,7 +26,13 @@ RULE = ("classes: (a) the mutate suite's collection-heavy classes with its op hi
         "spelling classes, 12% of the mutate classes, plus a directed stream of small mostly-optional classes): triples with "
         "different subsets of optional fields left unset / explicitly None in random order (both operand orders are compared), "
         "histories with x.f = None / re-assignment / None over a stored value; the first instance after its history joins the "
-        "comparison matrix; two fixed cases: __validate__ hook after unpickling, "
+        "comparison matrix; Float positions (bare, in Array/Deque/Tuple/Map) given ints and floats — a number-type difference at a "
+        "position declared Float is keyed @float-field, apart from the known eq-not-hash family; sequences of tuples holding "
+        "lists / dicts / structures (depth-3 alias probe); on half of the cases a chain of 2-3 copy operations "
+        "(copy/deepcopy/pickle in any order) whose every link must succeed and whose result must == x (model: composition of "
+        "copyI/deepcopyI/pickleI); an oracle-only stream of classes with Constant attributes (not in the model's declaration "
+        "language): same measurements on the real code, assignment to the constant on fresh instance and copies; a copy "
+        "operation that raises anything but a can't-pickle error is a failure; two fixed cases: __validate__ hook after unpickling, "
         "Decimals with different exponents; non-trivial = >=2 instances; distinct by sha256 of the case line")
 ASSUMPTIONS = [
     "_enable_undefined_value is modelled for the top-level class only (Inst.nones / Inst.undef, getA reads Undefined, setattrUndef); nested instances carry no _none_fields in the value model; the constructor model (C01/C02) does not know the flag, so start states of such classes are taken from the real code",
@@ -64,6 +70,15 @@ describe = P.describe
 
 
 def _kind_key(k):
+    if "-vs-" in k:
+        k, _, site = k.partition("@")
+        a, b = k.split("-vs-")
+        a, b = sorted([a, b], key=lambda t: NUM_RANK.get(t, 9))
+        return f"{a}-vs-{b}" + (f"@{site}" if site else "")
+    return k
+
+
+def _kind_key_unused(k):
     if "-vs-" in k:
         a, b = k.split("-vs-")
         a, b = sorted([a, b], key=lambda t: NUM_RANK.get(t, 9))
@@ -151,6 +166,9 @@ def judge(case, impl, model):
     copies = impl.get("copies", {})
     for kind in P.COPY_KINDS:
         c = copies.get(kind)
+        if c and c.get("raised"):
+            site = ":constant-field" if case.get("consts") else ""
+            fails.append((f"{kind}-raises:{c['raised']}{site}", f"{kind} of x raised {c['unavailable']}: x={show(0)}"))
         if not c or "unavailable" in c:
             continue
         if not (c["eq"] and c["eqRev"]) or c["ne"] or not c["fieldwise"]:
@@ -164,6 +182,26 @@ def judge(case, impl, model):
         elif not c["heq"] or c["setlen"] != 1:
             for k in [_kind_key(k) for k in c.get("diffs", [])] or ["unexplained"]:
                 fails.append((f"{kind}-hash-differs:{k}", f"{kind} of x is == x but hashes differently: str(x)={impl['strs'][0]!r} str(copy)={c['str']!r}"))
+    # ---- chain of copy operations
+    ch = impl.get("chain")
+    if ch:
+        label = ">".join(ch["chain"])
+        if ch.get("raised"):
+            failing, before = ch["chain"][ch["at"]], ch["chain"][:ch["at"]]
+            site = ":constant-field" if case.get("consts") else (":undefined-value-class" if case["cls"].get("undef") else "")
+            upto = failing if (not before or case.get("consts")) else \
+                f"{failing}-after-{'pickle' if 'pickle' in before else before[-1]}"
+            fails.append((f"chain-raises:{upto}:{ch['raised']}{site}",
+                          f"link {ch['at']} of the copy chain {label} raised {ch['unavailable']}: x={show(0)}"))
+        elif "state" in ch:
+            if not (ch["eq"] and ch["eqRev"] and ch["fieldwise"]):
+                fails.append(("chain-not-eq", f"the result of the copy chain {label} is not == x: x={show(0)} "
+                                              f"result={json.dumps(ch['state']['o'])[:220]}"))
+            elif not ch["heq"]:
+                for k in [_kind_key(k) for k in ch.get("diffs", [])] or ["unexplained"]:
+                    first = next((kd for kd in ch["chain"] if kd != "copy"), "copy")
+                    fails.append((f"{first}-hash-differs:{k}", f"the result of the copy chain {label} is == x but hashes "
+                                  f"differently: str(x)={impl['strs'][0]!r} str(result)={ch['str']!r}"))
     # ---- independence and behaviour of the copies
     runs = impl.get("runs", {})
     ops = impl.get("ops_actual", [])
